@@ -38,7 +38,18 @@ CLASSES = ['narrow', 'wide', 'small', 'freight']
 MODES = ['idle', 'approach', 'climb', 'takeoff']
 
 
-def run_case(job):
+def _snapshot(em):
+    """every amount of an inventory as plain numbers"""
+    from AEIC.performance.types import ThrustMode
+
+    out = {'fuel': float(em.total_fuel_burn), 'lifecycle': float(getattr(em, 'lifecycle_co2', 0.0) or 0.0)}
+    for part in ('trajectory_emissions', 'trajectory_indices', 'apu_emissions', 'gse_emissions', 'total_emissions'):
+        out[part] = {s.name: np.asarray(v, float).tolist() for s, v in getattr(em, part).items()}
+    out['lto'] = {s.name: [float(v[m]) for m in ThrustMode] for s, v in em.lto_emissions.items()}
+    return out
+
+
+def run_case(job, keep=None):
     warnings.simplefilter('ignore')
     case, oi, aclass, fuelname = job
     try:
@@ -60,6 +71,8 @@ def run_case(job):
             em = compute_emissions(pm, fuel, traj)
         except Exception as e:
             return [(f'compute-raised-{type(e).__name__}', f'compute_emissions raised {type(e).__name__}: {e} under options {cfgd}')]
+        if keep is not None:
+            keep.append((em, _snapshot(em), cfgd, aclass, fuelname))
         devs = [(f'balance:{k}', f'{d} [options {cfgd}, class {aclass}]') for k, d in balance(em, fuel, cfgd)]
         n = case['n']
         burn = np.asarray(em.fuel_burn_per_segment, float)
@@ -116,11 +129,18 @@ def run_case(job):
 
 def run_session(jobs):
     """EmissionsSession.tla behaviour: the inventories of a session one after the other in this (freshly forked) process."""
+    kept = []
     for k, job in enumerate(jobs):
-        devs = run_case(job)
+        devs = run_case(job, keep=kept)
         if devs:
             earlier = [{**(j[1] if isinstance(j[1], dict) else OPTION_SETS[j[1]]), 'mode': j[0]['mode']} for j in jobs[:k]]
             return [(key if key == 'machinery' else f'session:{key}', f'inventory {k + 1} of a session (earlier in this process: {earlier}): {desc}') for key, desc in devs]
+    # EmissionsSession.tla InventoriesAreKept: every inventory still holds what it held when it was returned
+    for k, (em, snap, cfgd, aclass, fuelname) in enumerate(kept):
+        now = _snapshot(em)
+        if now != snap:
+            diff = [f'{part}.{s}' for part in snap if isinstance(snap[part], dict) for s in set(snap[part]) | set(now.get(part, {})) if snap[part].get(s) != now.get(part, {}).get(s)] or [p_ for p_ in snap if snap[p_] != now.get(p_)]
+            return [('session:held-inventory-changed', f'inventory {k + 1} of a session of {len(kept)} (class {aclass}, fuel {fuelname}, options {cfgd}) no longer holds the amounts it was returned with after the later computations (fuels {[x[4] for x in kept[k + 1:]]}): changed {sorted(diff)[:6]}')]
     return []
 
 
@@ -162,7 +182,7 @@ def run(ctx: Ctx):
         for k, e in enumerate(sc):
             cf = e['cfg']
             pool = by_mode[cf['mode']]
-            sj.append((pool[(7 * si + k) % len(pool)], {'co2': cf['co2'], 'h2o': cf['h2o'], 'sox': cf['sox']}, CLASSES[si % 4], 'conventional_jetA' if si % 5 else 'SAF'))
+            sj.append((pool[(7 * si + k) % len(pool)], {'co2': cf['co2'], 'h2o': cf['h2o'], 'sox': cf['sox']}, CLASSES[si % 4], 'SAF' if (si + 2 * k) % 5 == 0 else 'conventional_jetA'))   # (the fuels of a session may differ)
         sessions.append(sj)
     load_emis_config({})
     model(), fuel_obj(), fuel_obj('SAF')
